@@ -77,6 +77,11 @@ Theorem C46_range_remove_overlap_exact : forall fuel a b out ok t,
 Proof. exact remove_overlap_exact. Qed.
 Print Assumptions C46_range_remove_overlap_exact.
 
+(* the recursion of MySQLRange.RemoveOverlap always finishes within (columns + 1) levels *)
+Theorem C46_range_remove_overlap_terminates : forall a b, exists out ok, remove_overlap_top a b = Some (out, ok).
+Proof. exact remove_overlap_terminates. Qed.
+Print Assumptions C46_range_remove_overlap_terminates.
+
 (* RemoveOverlappingRanges, for every input list, every step bound and every admissible sequence of
    FindConnections observations: a returned collection denotes exactly the union of the inputs and is pairwise
    disjoint.  PARTIAL: not proved — that the output is sorted; that the loop terminates (it does not for
@@ -89,17 +94,16 @@ Theorem C46_remove_overlapping_ranges_exact_disjoint_partial : forall fuel finds
 Proof. exact remove_overlapping_ranges_exact. Qed.
 Print Assumptions C46_remove_overlapping_ranges_exact_disjoint_partial.
 
-(* IntersectRanges(a, b) returns a, not a ∩ b *)
-Theorem C46_intersect_ranges_refuted : exists a b r t, length a = length b /\
-  intersect_ranges [a; b] = Some r /\ rcontains r t <> rcontains a t && rcontains b t.
-Proof.
-  exists [closed_rce 0 4], [ge_rce 2], [closed_rce 0 4], [Some 0%Z].
-  split; [reflexivity|]. split; [reflexivity|]. vm_compute. discriminate.
-Qed.
-Print Assumptions C46_intersect_ranges_refuted.
-Theorem C46_intersect_ranges_returns_first : forall a b, length a = length b -> a <> [] -> intersect_ranges [a; b] = Some a.
-Proof. exact intersect_ranges_two. Qed.
-Print Assumptions C46_intersect_ranges_returns_first.
+(* IntersectRanges: when the arguments of non-zero length all have n columns and there is at least one, the
+   result is a range of n columns denoting exactly the intersection of those arguments (an empty intersection is
+   returned as the range of empty columns, which denotes nothing); nil when every argument has length 0. *)
+Theorem C46_intersect_ranges_exact : forall n rs, n <> 0 -> lens_ok n rs -> Exists (fun x => length x = n) rs ->
+  exists r, intersect_ranges rs = Some r /\ length r = n /\ forall t, rcontains r t = all_contain rs t.
+Proof. exact intersect_ranges_exact. Qed.
+Print Assumptions C46_intersect_ranges_exact.
+Theorem C46_intersect_ranges_nil_when_no_argument : forall rs, Forall (fun x => length x = 0) rs -> intersect_ranges rs = None.
+Proof. exact intersect_ranges_none_when_all_zero. Qed.
+Print Assumptions C46_intersect_ranges_nil_when_no_argument.
 
 (* with the FindConnections observations the real tree produced on this well-formed 3-column input (one of them
    misses a stored overlapping range: the completeness flag is false) the result is the "overlapping ranges" error *)
